@@ -47,9 +47,16 @@ ARGS = {
                                   ("let mut buf@ = [1u64, 2, 3]; sent(buf@[1..].as_ptr());", "&mut buf@[1..]", "digest(&buf@)")],
                    "{p}.dig()", effect="for e in {p}.iter_mut() { *e = e.wrapping_mul(3).wrapping_add(d); }", ref=True),
     "str": A("&str", [("sent(\"\".as_ptr());", "\"\"", "0"), ("sent(\"a\".as_ptr());", "\"a\"", "0"), ("sent(\"\\u{e9}\".as_ptr());", "\"\\u{e9}\"", "0"),
-                      ("sent(\"a\\0b\".as_ptr());", "\"a\\0b\"", "0"), ("sent(\"\\u{65e5}\\u{672c}\".as_ptr());", "\"\\u{65e5}\\u{672c}\"", "0")], "{p}.dig()", ref=True),
+                      ("sent(\"a\\0b\".as_ptr());", "\"a\\0b\"", "0"), ("sent(\"\\u{65e5}\\u{672c}\".as_ptr());", "\"\\u{65e5}\\u{672c}\"", "0"),
+                      # strings a C-string-minded conversion would alter: trailing NUL(s), only a NUL, surrounding white space
+                      ("sent(\"ab\\0\".as_ptr());", "\"ab\\0\"", "0"), ("sent(\"\\0\".as_ptr());", "\"\\0\"", "0"), ("sent(\" a \\n\".as_ptr());", "\" a \\n\"", "0")], "{p}.dig()", ref=True),
     "opt_u64": A("Option<u64>", [("", "None", "0"), ("", "Some(0u64)", "0"), ("", "Some(u64::MAX)", "0")], "{p}.dig()"),
     "opt_ref": A("Option<&u64>", [("", "None", "0"), ("sent(&FIVE as *const u64);", "Some(&FIVE)", "0")], "{p}.map(dig_ref).dig()", ref=True),
+    # Option of a raw pointer has no niche: it must be lowered to COption like any other payload
+    "opt_ptr": A("Option<*const u8>", [("", "None", "0"), ("sent(BYTES3.as_ptr());", "Some(BYTES3.as_ptr())", "0"), ("sent(::core::ptr::null::<u8>());", "Some(::core::ptr::null::<u8>())", "0")], "{p}.dig()"),
+    # the same shapes spelled with a module path
+    "opt_q": A("::core::option::Option<u64>", [("", "None", "0"), ("", "Some(0u64)", "0"), ("", "Some(u64::MAX)", "0")], "{p}.dig()"),
+    "res_q": A("::std::result::Result<u8, u32>", [("", "Ok(0u8)", "0"), ("", "Err(u32::MAX)", "0")], "{p}.dig()"),
     "opt_nz": A("Option<::core::num::NonZeroU32>", [("", "None", "0"), ("", "::core::num::NonZeroU32::new(u32::MAX)", "0")], "{p}.map(|v| v.get()).dig()"),
     "res": A("Result<u8, u32>", [("", "Ok(0u8)", "0"), ("", "Ok(255u8)", "0"), ("", "Err(0u32)", "0"), ("", "Err(u32::MAX)", "0")], "{p}.dig()"),
     "into": A("impl Into<u64>", [("", "7u8", "0"), ("", "70000u32", "0"), ("", "u64::MAX", "0")], "Into::<u64>::into({p}).dig()"),
@@ -91,6 +98,10 @@ RETS = {
     "opt_u64": R("Option<u64>", "if sel % 3 == 0 { None } else if sel % 3 == 1 { Some(k) } else { Some(u64::MAX) }"),
     "opt_ref": R("Option<&u64>", "if sel % 2 == 0 { None } else { sent(&this.words[2] as *const u64); Some(&this.words[2]) }", rdig="r.map(dig_ref).dig()", recv="ref", ref=True),
     "res": R("Result<u64, u32>", "if sel % 2 == 0 { Ok(k) } else { Err(k as u32) }"),
+    "opt_ptr": R("Option<*const u8>", "if sel % 3 == 0 { None } else if sel % 3 == 1 { sent(BYTES3.as_ptr()); Some(BYTES3.as_ptr()) } else { sent(::core::ptr::null::<u8>()); Some(::core::ptr::null::<u8>()) }"),
+    "opt_q": R("::core::option::Option<u64>", "if sel % 3 == 0 { None } else if sel % 3 == 1 { Some(k) } else { Some(u64::MAX) }"),
+    "res_q": R("::std::result::Result<u64, u32>", "if sel % 2 == 0 { Ok(k) } else { Err(k as u32) }"),
+    "int_q": R("::core::result::Result<u64, ()>", "if sel % 2 == 0 { Ok(k) } else { Err(()) }", attr="#[int_result]"),
     "res_unit": R("Result<(), u32>", "if sel % 2 == 0 { Ok(()) } else { Err(k as u32 | 1) }"),
     "s3": R("S3", "S3 { a: k as u8, b: (k >> 8) as u16, c: k }"),
     # integer-coded results (C13, generated half)
@@ -105,7 +116,7 @@ RETS = {
     "no_int": R("Result<u64, u32>", "if sel % 2 == 0 { Ok(k) } else { Err(k as u32) }", attr="#[int_result]\n    #[no_int_result]"),
     "int_fmt": R("Result<u64, ::core::fmt::Error>", "if sel % 2 == 0 { Ok(k) } else { Err(::core::fmt::Error) }", rdig="r.map_err(|_| 1u32).dig()", attr="#[int_result]"),
 }
-SELS = {"slice_u8": 5, "slice_mut": 4, "str": 4, "opt_u64": 3, "opt_ref": 2, "res": 2, "res_unit": 2, "int_u64": 2, "int_unit": 2,
+SELS = {"opt_ptr": 3, "opt_q": 3, "res_q": 2, "int_q": 2, "slice_u8": 5, "slice_mut": 4, "str": 4, "opt_u64": 3, "opt_ref": 2, "res": 2, "res_unit": 2, "int_u64": 2, "int_unit": 2,
         "int_drop": 2, "int_io": 3, "int_unit_io": 3, "int_alias": 2, "no_int": 2, "int_fmt": 2}
 
 
@@ -123,7 +134,7 @@ def ret_ok(recv, ret):
 # how variant 0 of a shape is passed to the *raw* vtable slot (wrapped C type)
 RAW_NO_INTO = {"callback", "iter", "fnptr", "ptr", "opt_nz"}
 RAW_RECV = {"ref": "&cont", "mut": "&mut cont", "own": "cont", "pinref": "::core::pin::Pin::new(&cont)", "pinmut": "::core::pin::Pin::new(&mut cont)"}
-RAW_EXTRA = {"int_u64", "int_drop", "int_io", "int_alias", "int_fmt"}
+RAW_EXTRA = {"int_q", "int_u64", "int_drop", "int_io", "int_alias", "int_fmt"}
 
 
 class Method:
@@ -306,6 +317,12 @@ def emit_trait(t):
     return "\n".join(out), nact
 
 
+# spelling variants of shapes that are already in the grammar: swept per receiver and per position in both tiers,
+# left out of the thorough cross products
+LIGHT_ARGS = {"opt_q", "res_q"}
+LIGHT_RETS = {"opt_q", "res_q", "int_q"}
+
+
 def build(tier):
     traits = []
 
@@ -333,11 +350,22 @@ def build(tier):
         for rc in recvs:
             for a in ARGS:
                 for r in RETS:
+                    if a in LIGHT_ARGS or r in LIGHT_RETS:
+                        continue
                     if ret_ok(rc, r):
                         add([Method("m", rc, [a], r)], "recv=%s args=[%s] ret=%s" % (rc, a, r))
         for a in ARGS:
             for b in ARGS:
+                if a in LIGHT_ARGS or b in LIGHT_ARGS:
+                    continue
                 add([Method("m", "mut", [a, b], "u64")], "recv=mut args=[%s,%s] ret=u64" % (a, b))
+        for rc in recvs:
+            for a in sorted(LIGHT_ARGS):
+                add([Method("m", rc, [a], "u64")], "recv=%s args=[%s] ret=u64" % (rc, a))
+            for r in sorted(LIGHT_RETS):
+                add([Method("m", rc, ["u64"], r)], "recv=%s args=[u64] ret=%s" % (rc, r))
+        for a in sorted(LIGHT_ARGS):
+            add([Method("m", "mut", ["u64", a], "u64")], "recv=mut args=[u64,%s] ret=u64" % a)
     # multi-method traits mixing receivers (both tiers)
     add([Method("ma", "ref", ["u64"], "u64"), Method("mb", "mut", ["slice_u8"], "opt_u64"), Method("mc", "own", ["u64"], "res")], "3 methods: ref/mut/own")
     add([Method("ma", "mut", ["str"], "unit"), Method("mb", "mut", ["str"], "unit"), Method("mc", "ref", [], "u64")], "3 methods, two with identical signatures + getter")
